@@ -191,7 +191,7 @@ def replay_mini(case):
             pend = (m.plan(k), k)
         elif c in "FG":
             m.lookup(int(op[1:]))
-        elif c in "RE":
+        elif c in "REX":
             if m.remove(int(op[1:])) != "NOT_FOUND":
                 pend = None
         elif c == "T":
@@ -223,7 +223,7 @@ def gen_random(r, kind, off, nops, universe, script="-"):
             live.setdefault(k, rid)
             ops.append("I%d.%d" % (k, rid))
         elif x < 0.45:
-            ops.append("R%d" % r.choice(keys + extra))
+            ops.append("%s%d" % (r.choice("RRRX"), r.choice(keys + extra)))
         elif x < 0.55:
             ops.append("E%d" % r.choice(keys + extra))
         elif x < 0.67:
@@ -659,7 +659,7 @@ def l1_extra(case, impl_obs):
         elif c == "G":
             if v != m.get(int(op[1:]), "null"):
                 return False
-        elif c in "RE":
+        elif c in "REX":
             k = int(op[1:])
             if k in m:
                 if v not in ("SUCCESS:" + m[k],) + (("NO_MEM:" + m[k],) if faulty else ()):
@@ -686,7 +686,7 @@ def nontrivial(c):
     for o in ops:
         if o[0] in "IA":
             seen_ins = True
-        elif seen_ins and o[0] in "REFG":
+        elif seen_ins and o[0] in "REXFG":
             return True
     return False
 
